@@ -28,12 +28,21 @@ impl Float {
         let mut t = one.clone() / four;
         let mut x = one;
 
+        // The two means converge quadratically until they are equal, or until
+        // they are a few units in the last place apart and rounding keeps them
+        // there. Stop when the gap stops shrinking.
+        let mut gap = Self::inf(sem, false);
         while a != b {
             let y = a.clone();
             a = (&a + &b).scale(-1, rm);
             b = (&b * &y).sqrt();
             t -= &x * (&a - &y).sqr();
             x = x.scale(1, rm);
+            let new_gap = (&a - &b).abs();
+            if new_gap >= gap {
+                break;
+            }
+            gap = new_gap;
         }
         (a.sqr() / t).cast(orig_sem)
     }
